@@ -233,7 +233,7 @@ def folding_specs():
 
 
 def specs(tier: str):
-    sub = families.c01_specs(tier, kmode="all", max_inputs=45 if tier == "quick" else 130)
+    sub = families.c01_specs(tier, kmode="all", max_inputs=30 if tier == "quick" else 130)
     return sub + bundled_specs() + folding_specs()
 
 
